@@ -43,17 +43,19 @@ def runQRF (kv : List (String × String)) : String := Id.run do
   if ents.size ≠ n * n then return "bad-op"
   if !(strat.startsWith "piv" || strat.startsWith "mgsr") then return "bad-op"
   let ptxt (p : Array Nat) := ",".intercalate (p.toList.map toString)
+  let route := "bits-" ++ ty ++ (if strat.endsWith "_expr" then "-expr-" else "-tensor-")
+    ++ (if strat.startsWith "pivm" then "pivm" else if strat.startsWith "piv" then "pivv" else "nopiv")
   let idx := List.range (n * n)
   if ty == "double" then
     let A : Mat Float := ⟨fun i j => Float.ofBits (UInt64.ofNat (ents.getD (i * n + j) 0)), 0⟩
     let (Q, R, p) := runQRG Float.sqrt Float.abs (fun a b => a > b) n strat A
     let h (X : Mat Float) := ",".intercalate (idx.map (fun q => hexDigits 16 (X (q / n) (q % n)).toBits.toNat))
-    return s!"Q={h Q} R={h R} P={ptxt p}"
+    return s!"route={route} Q={h Q} R={h R} P={ptxt p}"
   else if ty == "float" then
     let A : Mat Float32 := ⟨fun i j => Float32.ofBits (UInt32.ofNat (ents.getD (i * n + j) 0)), 0⟩
     let (Q, R, p) := runQRG Float32.sqrt Float32.abs (fun a b => a > b) n strat A
     let h (X : Mat Float32) := ",".intercalate (idx.map (fun q => hexDigits 8 (X (q / n) (q % n)).toBits.toNat))
-    return s!"Q={h Q} R={h R} P={ptxt p}"
+    return s!"route={route} Q={h Q} R={h R} P={ptxt p}"
   else return "bad-op"
 
 end Fastor.Driver
